@@ -45,15 +45,6 @@ static void mk_socket(void)
 	g_env = z;
 }
 
-static int rtr_receive_pdu(struct rtr_socket *rtr_socket, void *pdu, const size_t pdu_len, const time_t timeout)
-__CPROVER_requires(__CPROVER_rw_ok(rtr_socket, sizeof(*rtr_socket)) && pdu_len >= 3248 && __CPROVER_rw_ok(pdu, 3248))
-__CPROVER_requires(rtr_socket->version <= 1 && __CPROVER_r_ok(rtr_socket->tr_socket, sizeof(struct tr_socket)))
-__CPROVER_ensures(__CPROVER_return_value == 0 || __CPROVER_return_value == -1 || __CPROVER_return_value == -2 ||
-		  __CPROVER_return_value == -3 || __CPROVER_return_value == -4)
-__CPROVER_ensures(rtr_socket->version <= __CPROVER_old(rtr_socket->version))
-__CPROVER_assigns(__CPROVER_object_upto(pdu, 3248), rtr_socket->version, rtr_socket->has_received_pdus, rtr_socket->state,
-		  __CPROVER_object_whole(&g_env));
-
 void h_receive_pdu(void)
 {
 	g_tape_n = 0;
@@ -71,7 +62,8 @@ void h_receive_pdu(void)
 	/* the version the socket ends up with */
 	const unsigned int v1 = g_sock.version;
 
-	CHECK(r == 0 || r == -1 || r == -2 || r == -3 || r == -4, "C04 rtr_receive_pdu: return code is success, error, would-block, interrupted or closed");
+	CHECK(RECV_POST(r, &g_sock, g_pdu.b, g_pre.version, g_pre.has_received_pdus, g_pre.state),
+	      "C04/C13 rtr_receive_pdu: contract used by all callers (return codes, well-formed host-order PDU on success, version rule, state)");
 	/* ---- C13: downward only, only on the first PDU of a connection */
 	CHECK(v1 <= g_pre.version, "C13 version never raised");
 	CHECK(v1 == g_pre.version || (!g_pre.has_received_pdus && hdr_ok && len_sane && RAW_VER(raw) == 0 && RAW_TYPE(raw) != SPEC_PDU_ERROR && g_pre.version == 1 && v1 == 0),
